@@ -154,9 +154,10 @@ def job(j):
         hist, cause = lst[0]
         mn = shrink(cfg, hist, clause)
         v2 = run_history(cfg, mn)[0]
-        if not any(c == clause for c, _ in v2):
-            raise RuntimeError('non-deterministic failure')
         key = f"{clause}/{cfg['transport']}/ka={int(cfg['ka'])}/{'+'.join(sorted(set(mn))) or 'fresh'}"
+        if not any(c == clause for c, _ in v2):
+            key = f"{clause}/{cfg['transport']}/ka={int(cfg['ka'])}/order-dependent"
+            v2 = [(clause, f'{cause}; ' + 'failed during exploration but not on a fresh replay: the outcome depends on earlier executions in the same process (state outside the objects under test leaks between executions)')]
         out.append(dict(key=key, clause=clause, n=len(lst), replay=dict(cfg=cfg, history=mn),
                         detail=dict(history=mn, cause=[c for cl, c in v2 if cl == clause][0])))
     st.violations = out
